@@ -2,7 +2,7 @@
    encoders shared by the language-level case kinds. *)
 From Coq Require Import List ZArith NArith Bool String.
 From WF Require Import Base.Bytes Base.Sexp Sem.RangeSet Lang.Types Lang.Ast Lang.Context
-     Sem.Funs Sem.Compile Spec.Denote Run.C09.
+     Sem.Funs Sem.Compile Spec.Denote Spec.Typing Run.C09.
 Import ListNotations.
 Open Scope string_scope.
 Open Scope list_scope.
@@ -271,6 +271,12 @@ Definition run_lang (spec : bool) (head : sexp) (a : list sexp) : option sexp :=
         Some (SList (sym "ok" ::
                      map (fun c => if spec then enc_mbool (denote_filter sch ast c) "undef"
                                    else enc_mbool (run_filter sch ast c) "panic") cs))
+      else if sym_is "typecheck" head then
+        sch <-- dec_scheme s ;; ast <-- dec_lexpr FUEL e ;;
+        Some (SList [sym (if wt_filter sch ast then "accept" else "reject")])
+      else if sym_is "typecheck-value" head then
+        sch <-- dec_scheme s ;; ast <-- dec_iexpr FUEL e ;;
+        Some (SList [sym (match wt_value sch ast with Some _ => "accept" | None => "reject" end)])
       else if sym_is "exec-value" head then
         sch <-- dec_scheme s ;; ast <-- dec_iexpr FUEL e ;; cs <-- option_map_all dec_ctx ctxs ;;
         Some (SList (sym "ok" ::
